@@ -213,7 +213,7 @@ pub fn shape_name(g: &DepGraph) -> String {
 // reference closure
 
 /// Names of the registry entries that items of `krate` contribute in an unperturbed run.
-fn entries_of(fx: &Fixtures, base: &RunOut, krate: &str) -> BTreeSet<String> {
+pub fn entries_of(fx: &Fixtures, base: &RunOut, krate: &str) -> BTreeSet<String> {
     let mut out = BTreeSet::new();
     for (src, _) in &base.edges {
         if src.0 != krate {
@@ -336,6 +336,7 @@ pub fn case(root: &str, g: &DepGraph, facts: Order, renumber: Renumber, priority
         load_priority: priority.to_vec(),
         declared_swap: None,
         dep_graph: Some(g.clone()),
+        variant_shape: None,
     }
 }
 
